@@ -620,6 +620,14 @@ func c12Derived(c *Ctx) {
 		{"several-names/empty-list", "令甲、乙 = 【】\n以甲（后增：“x”）\n输出【甲之长度，乙之长度】\n", "list[num(1),num(0)]"},
 		{"several-names/dictionary", "令丙、丁 = 【“a” = 1，“b” = 2】\n丙#“c” = 3\n丙#“a” = 10\n以丙（移除：“b”）\n输出【丙，丁，丁之所有索引】\n", `list[dict["a"=num(10),"c"=num(3)],dict["a"=num(1),"b"=num(2)],list[text("a"),text("b")]]`},
 		{"several-names/constant-and-block", "令：\n\t甲、乙 恒为 【1，2】\n以甲（左移）\n输出【甲，乙】\n", "list[list[num(2)],list[num(1),num(2)]]|error:*"},
+		{"length/list-count-changed-in-place", "令集 = 【1，2，3】\n以集之长度（自增：1）\n以集之数目（自减：2）\n输出【集之长度，集之数目，集】\n", "list[num(3),num(3),list[num(1),num(2),num(3)]]"},
+		{"length/dictionary-count-changed-in-place", "令典 = 【“a” = 1，“b” = 2】\n以典之长度（自增：5）\n以典之长度（自增：5）\n输出【典之长度，典之所有索引之长度，典】\n", `list[num(2),num(2),dict["a"=num(1),"b"=num(2)]]`},
+		{"length/changed-then-list-grows", "令集 = 【1】\n以集之长度（自增：10）\n以集（后增：2）\n以集之长度（自增：10）\n以集（后增：3）\n输出【集之长度，集之数目】\n", "list[num(3),num(3)]"},
+		{"length/empty-collections", "令集 = 【】\n令典 = 【=】\n以集之长度（自增：1）\n以典之长度（自增：1）\n输出【集之长度，典之长度，集，典】\n", "list[num(0),num(0),list[],dict[]]"},
+		{"length/through-loop-variable", "令集 = 【1，2】\n以数遍历【集之长度，集之数目】：\n\t以数（自增：7）\n输出【集之长度，集之数目】\n", "list[num(2),num(2)]"},
+		{"length/as-argument-changed-by-callee", "如何动？\n\t输入数\n\t以数（自增：9）\n\t输出 数\n令集 = 【1，2】\n令典 = 【“a” = 1】\n令果 = 【（动：集之长度），（动：典之长度）】\n输出【果，集之长度，典之长度】\n", "list[list[num(11),num(10)],num(2),num(1)]"},
+		{"text-form/changed-in-place", "令集 = 【1，2】\n令文 = 集之文本\n输出【集之文本 为 文，集之文本 为 集之文本】\n", "list[bool(true),bool(true)]"},
+		{"reverse/read-twice-independent", "令集 = 【【1】，【2】】\n令一 = 集之逆序\n令二 = 集之逆序\n以一#1（后增：9）\n输出【一，二，集】\n", "list[list[list[num(2),num(9)],list[num(1)]],list[list[num(2)],list[num(1)]],list[list[num(1)],list[num(2)]]]"},
 		{"keys/changed-in-loop", "令典 = 【“a” = 1，“b” = 2】\n令键 = 典之所有索引\n以键（后增：“c”）\n输出【典之所有索引，典之长度】\n", `list[list[text("a"),text("b")],num(2)]`},
 	}
 	reqs := []Req{}
